@@ -71,6 +71,10 @@ def align_oracle(a, b):
             return False
     if ai != len(a) or bi != len(b) or pairs != raw_pairs:
         return False
+    # lemma used by C03(a): the aligner never emits an insertion immediately before a deletion
+    # (unmatched runs come out as d...d i...i), so an insert position never coincides with a deleted element
+    if "id" in raw or "id" in d:
+        return False
     # common prefix / suffix survive as matches
     p = 0
     while p < len(a) and p < len(b) and a[p] == b[p]:
